@@ -40,6 +40,7 @@ PROPS['C16'] = dict(
     level='proof',
     module='SlotVerif.Props.C16',
     suites=[dict(name='shape', variant='default', shrink=False,
+                 outputs=['weak_shape', 'slots', 'all_occ', 'public_occ', 'private_occ', 'to_syntax', 'from_syntax(to_syntax)', 'apply_slotmap(shape,bij)', 'weak_shape(renamed)', 'weak_shape(shape)'],
                  quick=dict(count=60000), thorough=dict(count=2000000))],
     rule='corr.shape.weak: for each of the 7 harness languages (plain slots; Bind<AppliedId>; Bind<Bind<_>> with a free child '
          'before it; free child after a Bind; (Slot,AppliedId) pseudo-binder; payload types u32/i64/bool/char/Symbol; the main '
@@ -68,4 +69,22 @@ PROPS['C18'] = dict(
     trusted_base=['modelled, not verified: char::is_whitespace (model: the Unicode White_Space list written out), str::trim/split, payload FromStr impls'],
     assumptions=COMMON_ASSUME + ['texts are parsed in a fresh thread (empty slot table) on both sides'],
     pending_theorems=['print_parse_pattern (round-trip as a theorem)', 'parse_wf (arity of every accepted node)'],
+)
+
+PROPS['C10'] = dict(
+    level='proof',
+    module='SlotVerif.Props.C10',
+    suites=[dict(name='grp', variant='default', shrink=False,
+                 outputs=['count', 'all_perms', 'contains', 'orbits', 'add_set', 'count_after_add', 'all_perms_after_add', 'incremental_add_flags', 'incremental_count', 'incremental_all_perms', 'incremental_contains', 'is_trivial'],
+                 quick=dict(count=2000, set={'maxn': 4}), thorough=dict(count=20000, set={'maxn': 4}))],
+    rule='corr.group.direct through the VerifGroup hook: EXHAUSTIVELY all generator sets of <= 3 permutations on 2, 3 and 4 slots '
+         '(2371 sets), each combined with every single permutation as add_set argument (generator order rotated, numeric and named '
+         'slot alphabets), plus random sets of 1-4 generators (dense and sparse) on 5 and 6 slots. Compared with the Lean model: '
+         'count, sorted all_perms, contains for every permutation of the domain (n<=4) or 40 random ones, orbit of every point, '
+         'add_set result/size/elements, and the same group built incrementally one generator at a time. Independently the harness '
+         'computes the brute-force subgroup closure and checks sizes, duplicate-freeness and growth reports. '
+         'non-trivial = generated group is neither trivial nor the full symmetric group; distinct = by hash of the case line',
+    trusted_base=['modelled, not verified: FxHashSet/FxHashMap iteration order (model: list order; all compared observables are order-independent)'],
+    assumptions=COMMON_ASSUME + ['Group<Perm> is exercised directly (hook) here; through EGraph unions under C01/C02'],
+    pending_theorems=['contains_sound', 'contains_complete (Schreier)', 'allPerms_nodup', 'addSet_true_iff', 'orbit_iff', 'leaf_eq_iff'],
 )
